@@ -23,7 +23,7 @@ def Rel (l : Nat) (s s' : State) : Prop :=
   ∀ (i : Nat) (t : Thread), s.rem[i]? = some t → s'.rem[i]? = some (stripT (decide (s.owner l = some i)) t)
 
 theorem rel_init (l : Nat) (p : Prog) : Rel l (init p) (init (stripProg p)) := by
-  refine ⟨rfl, rfl, rfl, rfl, by simp [init, stripProg], by simp [init, stripProg], ?_⟩
+  refine ⟨rfl, rfl, rfl, rfl, rfl, by simp [init, stripProg], ?_⟩
   intro i t ht
   simp only [init, stripProg] at ht ⊢
   simp [ht]
